@@ -175,6 +175,11 @@ def gen_pixels(rng, c, h, w, flavour):
         k = rng.randrange(c)
         v = dy(rng)
         px[k] = [[v] * w for _ in range(h)]
+    elif flavour == "tiny":
+        # small but non-zero amplitude (exactly representable): the scale statistic is far below any "close to
+        # zero" tolerance, yet it is not zero, so the data must still be normalised
+        k = 2.0 ** -rng.choice([14, 30, 40])
+        px = [[[(v if v != 0 else 1.0) * k for v in row] for row in ch] for ch in px]
     elif flavour == "ramp":
         a, b = dy(rng, 8, 2), dy(rng, 8, 2)
         px = [[[a * i + b * j + ch for j in range(w)] for i in range(h)] for ch in range(c)]
@@ -342,6 +347,8 @@ def gen_normaliser_spec(rng, zero=None):
         flavour = "constant"
     elif zero == "channel":
         flavour, mode = "constant-channel", "per_channel"
+    elif rng.random() < 0.2:
+        flavour = "tiny"
     params = {"mode": mode, "error_on_divide_by_zero": rng.random() < 0.5}
     kind = rng.choice(["Image", "Image", "MaskedImage"])
     if name == "normalize":
@@ -704,6 +711,10 @@ def call_outcome(fn):
         return type(e).__name__, e
 
 
+def statkind_is_given(name, params):
+    return not (name == "normalize_var" or (name == "normalize" and params.get("scale") is None))
+
+
 def normaliser_case(run, spec, model=True):
     """normalize / normalize_std / normalize_norm / normalize_var: the numeric clauses and the zero-scale branches"""
     import numpy as np
@@ -818,6 +829,14 @@ def normaliser_case(run, spec, model=True):
                                                     np.array([[float(v) for v in r] for r in rows], dtype=spec["dtype"]).reshape(c, 1, -1)))
         ctx.check(ka == kind, site + ".agree", "one-convention-raises", "image call %s, array call %s" % (kind, ka), rp)
     if not model or not scalar_stat_shape_ok:
+        return
+    # the driver receives a *given* scale statistic as a table keyed on the centred group data; two groups with the
+    # same centred data but different given scales cannot be told apart by that protocol: no model query for them
+    # (corrected false alarm: seed 3 once produced two channels whose masked pixels were both (-21, -1))
+    cg = [tuple(v - sum(g) / F(len(g)) for v in g) for g in groups if g]
+    if statkind_is_given(name, params) and any(cg[i] == cg[j] and scales[i] != scales[j]
+                                                for i in range(len(cg)) for j in range(i)):
+        ctx.count("model-skipped:ambiguous-given-scale-table")
         return
     # --- the Lean model on the same exact data
     statkind = {"normalize_var": "var"}.get(name, "given")
